@@ -2,12 +2,11 @@
 # usage: try_seed.sh <seed dir name> [property]  -- applies the seeded patch to /repo, runs the check, reverts
 S="$1"; P="${2:-$(echo $S | cut -c1-3)}"
 cd /repo || exit 2
-if ! git apply --check /verif/seeded/$S/patch.diff 2>/dev/null; then
-  if ! git apply --3way /verif/seeded/$S/patch.diff 2>/dev/null; then echo "patch $S does not apply"; git checkout -- . ; exit 2; fi
-else
-  git apply /verif/seeded/$S/patch.diff
-fi
+PATCH=/verif/seeded/$S/patch.diff
+[ -f /verif/seeded/$S/patch.rebased.diff ] && PATCH=/verif/seeded/$S/patch.rebased.diff
+if ! git apply --check $PATCH 2>/dev/null; then echo "patch $S does not apply to the current tree (needs patch.rebased.diff)"; exit 2; fi
+git apply $PATCH
 /verif/check.sh $P quick > /tmp/try_seed_$S.log 2>&1; rc=$?
-git -C /repo checkout -- . ; git -C /repo reset -q
+git -C /repo checkout -f HEAD -- . ; git -C /repo reset -q --hard HEAD
 grep -E "^(VIOLATION|KNOWN|UNDECIDED|ENGINE|property=)" /tmp/try_seed_$S.log | cut -c1-260
 echo "seed=$S property=$P exit=$rc"
